@@ -229,7 +229,8 @@ func DeleteMailboxPerUser(db *sql.DB, userID int64, mailboxName string) error {
 	// Prevent deletion of default mailboxes (except via special operations)
 	defaultMailboxes := []string{"Sent", "Drafts", "Trash"}
 	for _, defaultMbx := range defaultMailboxes {
-		if strings.EqualFold(mailboxName, defaultMbx) {
+		// mailbox names are case-sensitive (only INBOX is not): "sent" is not "Sent"
+		if mailboxName == defaultMbx {
 			return fmt.Errorf("cannot delete default mailbox %s", mailboxName)
 		}
 	}
